@@ -303,6 +303,17 @@ class C17(Prop):
                 k += 1
         return hs
 
+    def claimed_line(self, op):
+        """the property speaks about label texts of 1..8 non-space characters (valid: round trip) and about texts it says
+        must be rejected, and about canonical label values; everything else (texts with blanks, the empty text, `α+5`,
+        leading zeros, non-canonical values) is compared with the model for information only"""
+        t = op.split()
+        if t[0] == "LABELRT":
+            return label_of_text_class(hex_text(t[1])) in ("valid", "reject")
+        if t[0] == "LABELRTL":
+            return bool(canonical_label(t[1]))
+        return True
+
     def oracle(self, h, il):
         seen = getattr(self, "_inj", None)
         if seen is None:
